@@ -629,6 +629,9 @@ impl Space for Transfer {
 struct EditAfterLoad {
     s1: Vec<Spec>,
     vars: Vec<(usize, usize)>,
+    /// false: the workbook is SAVED (output discarded) but not reloaded before the edit - the same in-memory object,
+    /// with whatever a save leaves behind in it, is edited and saved again
+    reload: bool,
 }
 impl EditAfterLoad {
     fn decode(&self, i: u64) -> (usize, usize) {
@@ -641,13 +644,13 @@ impl Space for EditAfterLoad {
     }
     fn describe(&self, i: u64) -> Value {
         let (a, b) = self.decode(i);
-        json!({"kind":"edit-after-load","shared_style": spec_json(&self.s1[a]), "edit": format!("{}#{}", ATTRS[self.vars[b].0].0, self.vars[b].1), "history": "B1 and B2 get the shared style; save+reload; get_style_mut(B1) gets the edit; save+reload"})
+        json!({"kind": if self.reload { "edit-after-load" } else { "edit-between-saves" },"shared_style": spec_json(&self.s1[a]), "edit": format!("{}#{}", ATTRS[self.vars[b].0].0, self.vars[b].1), "history": if self.reload { "B1 and B2 get the shared style; save+reload; get_style_mut(B1) gets the edit; save+reload" } else { "B1 and B2 get the shared style; save (same object kept, no reload); get_style_mut(B1) gets the edit; save+reload" }})
     }
     fn tags(&self, i: u64) -> Vec<String> {
         let (a, b) = self.decode(i);
         let mut t = spec_tags(&self.s1[a]);
         t.push(format!("edit:{}", ATTRS[self.vars[b].0].0));
-        t.push("edit-after-load".into());
+        t.push(if self.reload { "edit-after-load".into() } else { "edit-between-saves".into() });
         t
     }
     fn run(&self, i: u64, sink: &mut Sink) {
@@ -662,7 +665,13 @@ impl Space for EditAfterLoad {
         edited.push((va, vk));
         let light = i % 2 == 1;
         let run = || -> Result<[Value; 4], String> {
-            let (_, mut h) = roundtrip(&build_style_book(&[shared.clone(), shared.clone()]), light)?;
+            let mut h = if self.reload {
+                roundtrip(&build_style_book(&[shared.clone(), shared.clone()]), light)?.1
+            } else {
+                let b = build_style_book(&[shared.clone(), shared.clone()]);
+                crate::dump::save_bytes(&b, light)?;
+                b
+            };
             apply_var(h.get_sheet_mut(&0).unwrap().get_style_mut("B1"), va, vk);
             let (_, h2) = roundtrip(&h, light)?;
             let (_, t2) = roundtrip(&build_style_book(&[edited.clone(), shared.clone()]), light)?;
@@ -826,7 +835,12 @@ pub fn space(tier: Tier, id: &str) -> Option<Box<dyn Space>> {
         "edit-after-load" => {
             let vars: Vec<(usize, usize)> = sigma1().into_iter().filter(|s| s.len() == 1).map(|s| s[0]).collect();
             let s1 = if tier == Tier::Thorough { sigma1() } else { sigma1().into_iter().step_by(3).collect() };
-            Some(Box::new(EditAfterLoad { s1, vars }))
+            Some(Box::new(EditAfterLoad { s1, vars, reload: true }))
+        }
+        "edit-between-saves" => {
+            let vars: Vec<(usize, usize)> = sigma1().into_iter().filter(|s| s.len() == 1).map(|s| s[0]).collect();
+            let s1 = if tier == Tier::Thorough { sigma1() } else { sigma1().into_iter().step_by(3).collect() };
+            Some(Box::new(EditAfterLoad { s1, vars, reload: false }))
         }
         _ => None,
     }
@@ -843,7 +857,7 @@ fn replay(tier: Tier, case: &Value) -> Vec<Violation> {
 }
 
 fn run(ctx: &Ctx) -> i32 {
-    let ids = ["pairs", "all-at-once", "dims", "transfer", "edit-after-load", "second-session", "overwrite-same-attribute"];
+    let ids = ["pairs", "all-at-once", "dims", "transfer", "edit-after-load", "edit-between-saves", "second-session", "overwrite-same-attribute"];
     let spaces = ids.iter().map(|id| (*id, space(ctx.tier, id).unwrap())).collect();
     run_e1(
         ctx,
@@ -851,7 +865,7 @@ fn run(ctx: &Ctx) -> i32 {
             spaces,
             cfg: PoolCfg { chunk: 16, case_timeout: std::time::Duration::from_secs(300), ..Default::default() },
             level: "exploration",
-            rule: "style alphabet = base + every single-attribute variation (sigma1) + every pair of variations (sigma2) + a separator-collision family; (pairs) every ordered pair of sigma1 in a two-cell workbook, alternating writers; (all-at-once) whole sets in one workbook in forward and reverse order, which covers every ordered (earlier, later) pair for interning merges; (dims) every assignment of 5 states (absent / size / style / all / hidden only) to columns 1..5 and rows 1..3; (transfer) every sigma1 style read back from one workbook and given to a cell of another reloaded workbook whose tables use the same ids for other components; (edit-after-load) two cells sharing one sigma1 style (quick: every third), reloaded, one of them edited in place with every single variation, compared with a twin workbook that was given the final styles directly (the sibling must not change); (overwrite-same-attribute) per attribute every ordered pair of its values applied to the same style object one after the other; (second-session) a saved workbook is reloaded and new cells get styles built from scratch - three times a style the file already contains and once another one - compared cell by cell with a twin that was given everything in one session. Oracle: field-by-field effective style projection given == reloaded, where a never-set component equals the component shown by control cells after reload; style tables of generation 2 == generation 3 (read by the independent Python decoder). distinct_nontrivial = distinct reloaded effective projections".into(),
+            rule: "style alphabet = base + every single-attribute variation (sigma1) + every pair of variations (sigma2) + a separator-collision family; (pairs) every ordered pair of sigma1 in a two-cell workbook, alternating writers; (all-at-once) whole sets in one workbook in forward and reverse order, which covers every ordered (earlier, later) pair for interning merges; (dims) every assignment of 5 states (absent / size / style / all / hidden only) to columns 1..5 and rows 1..3; (transfer) every sigma1 style read back from one workbook and given to a cell of another reloaded workbook whose tables use the same ids for other components; (edit-after-load) two cells sharing one sigma1 style (quick: every third), reloaded, one of them edited in place with every single variation, compared with a twin workbook that was given the final styles directly (the sibling must not change); (edit-between-saves) the same with the first reload left out: the workbook object that has just been saved is edited and saved again; (overwrite-same-attribute) per attribute every ordered pair of its values applied to the same style object one after the other; (second-session) a saved workbook is reloaded and new cells get styles built from scratch - three times a style the file already contains and once another one - compared cell by cell with a twin that was given everything in one session. Oracle: field-by-field effective style projection given == reloaded, where a never-set component equals the component shown by control cells after reload; style tables of generation 2 == generation 3 (read by the independent Python decoder). distinct_nontrivial = distinct reloaded effective projections".into(),
             alphabets: json!({"attributes": ATTRS.iter().map(|a| format!("{}x{}", a.0, a.1)).collect::<Vec<_>>(), "sigma1": sigma1().len(), "sigma2": sigma2().len(), "collision_family": collision_family().len()}),
             bounds: json!({"all-at-once": if ctx.tier == Tier::Thorough {"sigma1 + sigma2 + collision family in one workbook"} else {"sigma1; collision family; sigma2 restricted to the seven font attributes"}}),
             exhaustive: true,
